@@ -475,6 +475,39 @@ def check_f(ck, repo):
                 alts.add((frozenset(c_), xt(v_)))
             got[s_.targets[0].attr] = (s_, alts)
     if set(got) != {"cluster_centers_", "labels_", "inertia_"}:
+        # the stores moved into a method that receives the values: read them through its call
+        got = {}
+        for hname, h in ci.methods.items():
+            hs = {}
+            for s_ in own_nodes(h.node):
+                if isinstance(s_, ast.Assign) and len(s_.targets) == 1 and isinstance(s_.targets[0], ast.Attribute) and src_of(s_.targets[0].value) == "self" and s_.targets[0].attr in ("cluster_centers_", "labels_", "inertia_") and isinstance(s_.value, ast.Name) and s_.value.id in h.named_params:
+                    hs[s_.targets[0].attr] = h.named_params.index(s_.value.id) - 1
+            if set(hs) != {"cluster_centers_", "labels_", "inertia_"} or h is fi:
+                continue
+            cs_ = [c_ for c_ in own_nodes(fi.node) if isinstance(c_, ast.Call) and src_of(c_.func) == f"self.{hname}"]
+            if len(cs_) != 1:
+                continue
+            c_ = cs_[0]
+            at_ = c_
+            while not isinstance(at_, ast.stmt):
+                at_ = at_._parent
+            for attr_, pos_ in hs.items():
+                alts = set()
+                if len(c_.args) == 1 and isinstance(c_.args[0], ast.Starred):
+                    for f_, v_, _st in guarded_values(repo, fi, c_.args[0].value, at_):
+                        if isinstance(v_, ast.Constant) and v_.value is None:
+                            continue
+                        if isinstance(v_, ast.Tuple) and pos_ < len(v_.elts):
+                            alts.add((frozenset(f_), xt(v_.elts[pos_])))
+                        else:
+                            alts.add((frozenset(f_), xt(v_) + f"[{pos_}]"))
+                elif pos_ < len(c_.args) and not any(isinstance(a_, ast.Starred) for a_ in c_.args):
+                    for f_, v_, _st in guarded_values(repo, fi, c_.args[pos_], at_):
+                        if not (isinstance(v_, ast.Constant) and v_.value is None):
+                            alts.add((frozenset(f_), xt(v_)))
+                if alts:
+                    got[attr_] = (at_, alts)
+    if set(got) != {"cluster_centers_", "labels_", "inertia_"}:
         ck.unknown("C06.f", fi, "self.cluster_centers_ / labels_ / inertia_", f"stores found for {sorted(got)} only")
         return
     runs = {}
